@@ -28,6 +28,15 @@ type propSpec struct {
 	Components      map[string][]string
 	Assumptions     []string
 	ExpectProbes    []string
+	Also            []alsoSpec // further harnesses run under the same property id
+}
+
+type alsoSpec struct {
+	Harness                         string
+	Chunk                           int
+	QuickRuns, QuickBudgetS         int
+	ThoroughRuns, ThoroughBudgetS   int
+	RaceRuns, RaceBudgetS           int
 }
 
 var commonSim = []string{"goroutine scheduler (simrt: seeded token scheduler on testing/synctest)", "clock (synctest fake clock)", "sync.Mutex/RWMutex/WaitGroup (simsync shims)", "map iteration / select order (runtime overlay seeded per run)"}
@@ -89,6 +98,7 @@ var specs = map[string]*propSpec{
 	"C07": c07Spec(),
 	"C11": c11Spec(),
 	"C17": c17Spec(),
+	"C02": c02Spec(),
 	"C05": chainSpec("C05", "exploration"),
 }
 
@@ -147,4 +157,24 @@ func c17Spec() *propSpec {
 	}
 	s.ExpectProbes = []string{"wallet_compared", "index_switched_off", "index_built_from_populated_set", "reorg"}
 	return s
+}
+
+func c02Spec() *propSpec {
+	return &propSpec{
+		ID: "C02", Harness: "sigsim", Level: "exploration", Chunk: 60, Workers: 16,
+		Quick:    tierParams{Runs: 3000, BudgetS: 30, PerRunS: 60, RaceRuns: 200, RaceBudgetS: 25, ShrinkAttempts: 150, ShrinkS: 60},
+		Thorough: tierParams{Runs: 200000, BudgetS: 600, PerRunS: 120, RaceRuns: 10000, RaceBudgetS: 300, ShrinkAttempts: 400, ShrinkS: 200},
+		Also:     []alsoSpec{{Harness: "chainsim", Chunk: 6, QuickRuns: 200, QuickBudgetS: 45, ThoroughRuns: 8000, ThoroughBudgetS: 900}},
+		Rule: "two arms. (1) cache clause: one btc.Tx object with 1-8 inputs (P2PKH, P2WPKH, P2SH-P2WPKH, P2TR coins) and 1-8 outputs; 1-8 simulated goroutines issue 2-64 digest requests (legacy incl. 4-byte hash types, BIP143, BIP341 key path with and without annex, tapscript; all seven defined hash types, in and out of SIGHASH_SINGLE range) in a seeded order and interleaving (yield inside the hashLock critical section); every digest must equal the one a FRESH object returns for that single request, and - where the harness's own implementation of the BIP covers the request - the definition; a race-detector arm repeats seeds. (2) two-party clause: chain histories (as C04) whose every transaction is signed by the independent signer over its own digests with drawn hash types; a block the ledger calls valid must not be refused for a script failure and a block with a corrupted signature (four kinds, incl. the two taproot cases where no digest is defined) must not be connected. distinct_nontrivial = distinct (schedule-trace hash, digest-set hash / final state).",
+		Components: map[string][]string{
+			"real":      {"lib/btc Tx.SignatureHash / WitnessSigHash / TaprootSigHash (instrumented package)", "lib/script via the chain arm", "lib/chain + lib/utxo (chain arm)"},
+			"simulated": append([]string{"digest-requesting goroutines", "independent signer with its own legacy/BIP143/BIP341 digests", "miner, block delivery (chain arm)"}, commonSim...),
+			"restated":  {},
+		},
+		Assumptions: []string{
+			"equality with the three definitions is sampled, not decided, for: script codes with OP_CODESEPARATOR or embedded signatures (FindAndDelete), annex and tapscript digests (compared with a fresh object only)",
+			"the chain arm reports only script-related disagreements under C02 (a refused valid block whose error is a script failure; a connected block with a corrupted signature)",
+		},
+		ExpectProbes: []string{"compared_with_reference_legacy", "compared_with_reference_bip143", "compared_with_reference_bip341", "fresh_object_only_tapscript"},
+	}
 }
